@@ -898,3 +898,71 @@ Proof.
   unfold apply_edits. cbn [existsb edit_drops e_mode andb orb flat_map edit_inserts e_key e_val]. rewrite app_nil_r.
   f_equal. apply filter_ext. intros h. rewrite orb_false_r. reflexivity.
 Qed.
+
+(* ------------------------------------------------------------------ *)
+(** * Per-frontend request policy *)
+
+Definition rw_touches (r : rewrites) (h : header) : bool :=
+  existsb (fun e => named (fst e) h) (rw_hdrs r) || named n_lhost h || named n_lxfh h.
+
+Lemma filter_andb {A} (p q : A -> bool) l : filter (fun x => p x && q x) l = filter p (filter q l).
+Proof.
+  induction l as [|a l IH]; [reflexivity|]. cbn [filter].
+  destruct (q a); cbn [filter]; rewrite ?andb_true_r, ?andb_false_r; [destruct (p a); rewrite IH; reflexivity|exact IH].
+Qed.
+
+Lemma rw_drops_touches r h : rw_drops r h = true -> rw_touches r h = true.
+Proof.
+  unfold rw_drops, rw_touches. intros H.
+  apply orb_prop in H. destruct H as [H|H]; [apply orb_prop in H; destruct H as [H|H]|].
+  - apply existsb_exists in H. destruct H as [e [He1 He2]]. apply andb_prop in He2.
+    assert (existsb (fun e0 => named (fst e0) h) (rw_hdrs r) = true) as ->; [|reflexivity].
+    apply existsb_exists. exists e. split; [exact He1|apply He2].
+  - apply andb_prop in H. destruct H as [_ H]. rewrite H, orb_true_r. reflexivity.
+  - apply andb_prop in H. destruct H as [_ H]. rewrite H, orb_true_r. reflexivity.
+Qed.
+
+Lemma apply_rw_others r o hs :
+  filter (fun h => negb (rw_touches r h)) (apply_rw r o hs) = filter (fun h => negb (rw_touches r h)) hs.
+Proof.
+  unfold apply_rw. destruct (rw_noop r); [reflexivity|]. rewrite filter_app.
+  assert (Hins : filter (fun h => negb (rw_touches r h)) (rw_inserts r o) = []).
+  { unfold rw_inserts. rewrite filter_app.
+    assert (G : forall l, (forall e, In e l -> In e (rw_hdrs r)) ->
+               filter (fun h => negb (rw_touches r h))
+                 (filter (fun e => negb (is_empty (snd e)) && negb (named n_lhost e)) l) = []).
+    { induction l as [|e t IH]; intros Hin; [reflexivity|]. cbn [filter].
+      destruct (negb (is_empty (snd e)) && negb (named n_lhost e)); [|apply IH; intros x Hx; apply Hin; right; exact Hx].
+      cbn [filter]. assert (rw_touches r e = true) as ->.
+      { unfold rw_touches. assert (existsb (fun e0 => named (fst e0) e) (rw_hdrs r) = true) as ->; [|reflexivity].
+        apply existsb_exists. exists e. split; [apply Hin; left; reflexivity|]. destruct e as [k v]. apply named_refl. }
+      cbn [negb]. apply IH. intros x Hx. apply Hin. right. exact Hx. }
+    match goal with |- ?a ++ ?b = [] => assert (Hb : b = []) by (apply G; auto); rewrite Hb end. rewrite app_nil_r.
+    destruct (rw_host r); [|reflexivity]. cbn [filter]. unfold rw_touches.
+    change (named n_lxfh (B "X-Forwarded-Host"%string, o)) with true. rewrite orb_true_r. reflexivity. }
+  rewrite Hins, app_nil_r.
+  induction hs as [|h t IH]; [reflexivity|]. cbn [filter].
+  destruct (rw_drops r h) eqn:Ed; cbn [negb].
+  - rewrite (rw_drops_touches r h Ed). cbn [negb]. exact IH.
+  - cbn [filter]. destruct (negb (rw_touches r h)); rewrite IH; reflexivity.
+Qed.
+
+Lemma fidelity_with_policy_l c r o hs :
+  id_ok c ->
+  filter (fun h => not_owned c h && negb (rw_touches r h)) (apply_rw r o (edit_request c hs)) =
+  filter (fun h => not_owned c h && negb (rw_touches r h)) hs.
+Proof.
+  intros Hid. rewrite !filter_andb. rewrite apply_rw_others. rewrite <- !filter_andb.
+  rewrite (filter_ext _ (fun h => negb (rw_touches r h) && not_owned c h)) by (intros; apply andb_comm).
+  rewrite (filter_ext (fun h => not_owned c h && negb (rw_touches r h)) (fun h => negb (rw_touches r h) && not_owned c h))
+    by (intros; apply andb_comm).
+  rewrite !filter_andb. rewrite (fidelity_l c Hid hs). reflexivity.
+Qed.
+
+Lemma headers_of_apply_rw r o l : headers_of (apply_rw_items r o l) = apply_rw r o (headers_of l).
+Proof.
+  unfold apply_rw_items, apply_rw. destruct (rw_noop r); [reflexivity|].
+  rewrite headers_of_app, headers_of_map_IH. f_equal.
+  induction l as [|[h|] t IH]; cbn [filter headers_of]; [reflexivity| |exact IH].
+  destruct (negb (rw_drops r h)); cbn [headers_of]; rewrite IH; reflexivity.
+Qed.
